@@ -241,3 +241,453 @@ def collection_item_classes(text: str) -> list[str]:
 def walk_stmts(stmts: list[ast.stmt]) -> Iterator[ast.AST]:
     for s in stmts:
         yield from ast.walk(s)
+
+
+# --------------------------------------------------------------------------------------------------------------------
+# pyparsing grammar: which grammar names can be the LAST element a rule matches (rules m-o of checks/c15.py)
+# --------------------------------------------------------------------------------------------------------------------
+_G_MAYBE = {"Optional", "ZeroOrMore", "Opt"}                      # may match nothing
+_G_NAMED = {"Param", "ParamList", "Comp"}                         # (name, element): the element is the second argument
+_G_TERMINAL = {"Literal", "Keyword", "CaselessKeyword", "CaselessLiteral", "Regex", "Word", "Char", "Empty", "NoMatch",
+               "QuotedString", "White", "CharsNotIn", "Forward", "LineEnd", "StringEnd", "LineStart", "StringStart"}
+
+
+def _g_callee(e: ast.AST) -> Optional[str]:
+    if isinstance(e, ast.Call) and isinstance(e.func, ast.Name):
+        return e.func.id
+    return None
+
+
+def _g_operands(e: ast.Call) -> list[ast.expr]:
+    """the grammar elements a combinator call wraps"""
+    c = _g_callee(e)
+    if c in _G_NAMED:
+        return list(e.args[1:2])
+    return [a for a in e.args if not isinstance(a, ast.Constant)]
+
+
+def g_nullable(defs: dict[str, list[ast.expr]], e: ast.AST, seen: frozenset = frozenset()) -> bool:
+    """can the grammar element match the empty string (as far as its shape tells)"""
+    if isinstance(e, ast.Name):
+        if e.id in seen or e.id not in defs:
+            return False
+        vals = [v for v in defs[e.id] if _g_callee(v) != "Forward"]
+        return any(g_nullable(defs, v, seen | {e.id}) for v in vals)
+    if isinstance(e, ast.UnaryOp):
+        return True  # ~E: a look-ahead consumes nothing
+    if isinstance(e, ast.BinOp):
+        if isinstance(e.op, (ast.BitOr, ast.BitXor)):
+            return g_nullable(defs, e.left, seen) or g_nullable(defs, e.right, seen)
+        if isinstance(e.op, ast.Mult):
+            return g_nullable(defs, e.left, seen)
+        return g_nullable(defs, e.left, seen) and g_nullable(defs, e.right, seen)
+    if isinstance(e, ast.Subscript):
+        return True
+    if isinstance(e, ast.Call):
+        c = _g_callee(e)
+        if c in _G_MAYBE:
+            return True
+        if c in _G_TERMINAL:
+            return c == "Empty"
+        if isinstance(e.func, ast.Attribute):
+            return g_nullable(defs, e.func.value, seen)  # E.copy(), E.set_parse_action(..), ...: a decoration of E
+        ops = _g_operands(e)
+        return bool(ops) and all(g_nullable(defs, o, seen) for o in ops)
+    return False
+
+
+def g_tail_names(defs: dict[str, list[ast.expr]], e: ast.AST) -> set[str]:
+    """the grammar NAMES that stand in tail position of the element e: what is matched by them ends where e ends
+    (`A + B` -> tail of B, and of A when B can be empty; `A | B` -> both; a combinator / decoration -> its operand)"""
+    if isinstance(e, ast.Name):
+        return {e.id}
+    if isinstance(e, ast.UnaryOp):
+        return g_tail_names(defs, e.operand)
+    if isinstance(e, ast.BinOp):
+        if isinstance(e.op, (ast.BitOr, ast.BitXor, ast.BitAnd)):
+            return g_tail_names(defs, e.left) | g_tail_names(defs, e.right)
+        if isinstance(e.op, ast.Mult):
+            return g_tail_names(defs, e.left)
+        out = g_tail_names(defs, e.right)
+        if g_nullable(defs, e.right):
+            out |= g_tail_names(defs, e.left)
+        return out
+    if isinstance(e, ast.Subscript):
+        return g_tail_names(defs, e.value)
+    if isinstance(e, ast.Call):
+        if _g_callee(e) in _G_TERMINAL:
+            return set()
+        if isinstance(e.func, ast.Attribute):
+            return g_tail_names(defs, e.func.value)
+        out = set()
+        for o in _g_operands(e):
+            out |= g_tail_names(defs, o)
+        return out
+    return set()
+
+
+def g_tail_cycle(defs: dict[str, list[ast.expr]], name: str) -> Optional[list[str]]:
+    """[name, ..., name] when the grammar rule `name` can end with (a rule that can end with ...) itself, else None"""
+    prev: dict[str, str] = {}
+    todo = [name]
+    while todo:
+        cur = todo.pop()
+        for v in defs.get(cur, []):
+            for t in sorted(g_tail_names(defs, v)):
+                if t == name:
+                    path = [cur]
+                    while path[-1] != name:
+                        path.append(prev[path[-1]])
+                    return [name] + path[::-1][1:] + [name] if cur != name else [name, name]
+                if t not in prev and t in defs:
+                    prev[t] = cur
+                    todo.append(t)
+    return None
+
+
+# --------------------------------------------------------------------------------------------------------------------
+# classes: attributes a constructor sets, copies made by methods
+# --------------------------------------------------------------------------------------------------------------------
+def all_params(fn: ast.AST) -> list[str]:
+    a = fn.args  # type: ignore[attr-defined]
+    return [x.arg for x in a.posonlyargs + a.args + a.kwonlyargs] + [x.arg for x in (a.vararg, a.kwarg) if x is not None]
+
+
+def self_attr_stores(fn: ast.AST, include_nested: bool = False) -> list[tuple[str, ast.stmt, Optional[ast.expr]]]:
+    """(attribute, statement, value) of every `self.X = V` / `self.X: T = V` of a method (self = its first parameter)"""
+    ps = params_of(fn)
+    if not ps:
+        return []
+    me = ps[0]
+    out: list[tuple[str, ast.stmt, Optional[ast.expr]]] = []
+    for n in own_nodes(fn, include_nested=include_nested):
+        tgs: list[ast.expr] = []
+        val: Optional[ast.expr] = None
+        if isinstance(n, ast.Assign):
+            tgs, val = list(n.targets), n.value
+        elif isinstance(n, ast.AnnAssign) and n.value is not None:
+            tgs, val = [n.target], n.value
+        elif isinstance(n, ast.AugAssign):
+            tgs, val = [n.target], n.value
+        for t in tgs:
+            if isinstance(t, ast.Attribute) and isinstance(t.value, ast.Name) and t.value.id == me:
+                out.append((t.attr, n, val))  # type: ignore[arg-type]
+    return out
+
+
+# --------------------------------------------------------------------------------------------------------------------
+# where one list held by an algebra node goes (rule b of checks/c15.py): value flow from an entry function through the
+# functions it can call - by name, through a local bound to a function, through a module-level table of functions
+# --------------------------------------------------------------------------------------------------------------------
+_NEW_CONTAINER = {"list", "sorted", "tuple", "set", "frozenset", "dict", "reversed", "deepcopy", "copy", "OrderedDict"}
+_TABLE_BUILDERS = {"dict", "list", "tuple", "set", "frozenset", "OrderedDict", "MappingProxyType", "ChainMap"}
+REORDER_IN_PLACE = {"sort", "reverse"}
+LIST_MUTATORS = {"sort", "reverse", "append", "extend", "insert", "pop", "remove", "clear", "__setitem__", "__delitem__", "__iadd__"}
+IN_PLACE_FUNCTIONS = {"shuffle", "heapify"}  # f(lst) that reorder their argument
+
+
+def bindings_of(fn: ast.AST, name: str) -> list[tuple[str, ast.expr]]:
+    """('is', E) for `name = E` / `name: T = E` / `(name := E)`; ('from', E) for every other way fn binds the name out of E
+    (unpacking, loop / comprehension / with target, augmented assignment)"""
+    out: list[tuple[str, ast.expr]] = []
+    for n in own_nodes(fn, include_nested=True):
+        if isinstance(n, ast.Assign):
+            for t in n.targets:
+                if isinstance(t, ast.Name) and t.id == name:
+                    out.append(("is", n.value))
+                elif not isinstance(t, ast.Name) and name in {x.id for x in ast.walk(t) if isinstance(x, ast.Name) and isinstance(x.ctx, ast.Store)}:
+                    out.append(("from", n.value))
+        elif isinstance(n, ast.AnnAssign) and n.value is not None and isinstance(n.target, ast.Name) and n.target.id == name:
+            out.append(("is", n.value))
+        elif isinstance(n, ast.NamedExpr) and n.target.id == name:
+            out.append(("is", n.value))
+        elif isinstance(n, ast.AugAssign) and isinstance(n.target, ast.Name) and n.target.id == name:
+            out.append(("from", n.value))
+        elif isinstance(n, (ast.For, ast.AsyncFor, ast.comprehension)) and name in {x.id for x in ast.walk(n.target) if isinstance(x, ast.Name)}:
+            out.append(("from", n.iter))
+        elif isinstance(n, (ast.With, ast.AsyncWith)):
+            for it in n.items:
+                if it.optional_vars is not None and name in {x.id for x in ast.walk(it.optional_vars) if isinstance(x, ast.Name)}:
+                    out.append(("from", it.context_expr))
+    return out
+
+
+def is_local(fn: ast.AST, name: str) -> bool:
+    return name in all_params(fn) or bool(bindings_of(fn, name)) or any(
+        isinstance(n, (ast.FunctionDef, ast.AsyncFunctionDef)) and n.name == name for n in own_nodes(fn, include_nested=True))
+
+
+def callables_of(repo, mod: Module, fn: ast.AST, e: ast.AST, resolve, depth: int = 0) -> list[tuple[Module, ast.FunctionDef]]:
+    """the module-level functions that calling the expression e (in fn) can run - an over-approximation: every function named in
+    the expressions the value of e is computed from (locals followed through all their bindings), and, where such an
+    expression names a module-level table (dict / list / tuple literal or constructor call), every function the table holds"""
+    out: list[tuple[Module, ast.FunctionDef]] = []
+    seen_names: set[str] = set()
+    todo: list[ast.AST] = [e]
+    steps = 0
+    while todo and steps < 200:
+        steps += 1
+        x = todo.pop()
+        for n in ast.walk(x):
+            if not (isinstance(n, ast.Name) and isinstance(n.ctx, ast.Load)) or n.id in seen_names:
+                continue
+            seen_names.add(n.id)
+            if is_local(fn, n.id):
+                todo += [v for _k, v in bindings_of(fn, n.id)]
+                continue
+            r = resolve(repo, mod, n.id)
+            if r is not None:
+                out.append(r)
+                continue
+            for v in module_level_values(mod, n.id):
+                if isinstance(v, (ast.Dict, ast.List, ast.Tuple, ast.Set)) or isinstance(v, ast.Call) and norm(v.func).split(".")[-1] in _TABLE_BUILDERS:
+                    for m in ast.walk(v):
+                        if isinstance(m, ast.Name) and isinstance(m.ctx, ast.Load):
+                            r2 = resolve(repo, mod, m.id)
+                            if r2 is not None:
+                                out.append(r2)
+    uniq: list[tuple[Module, ast.FunctionDef]] = []
+    for r in out:
+        if not any(r[1] is u[1] for u in uniq):
+            uniq.append(r)
+    return uniq
+
+
+def _bound_value(st: ast.AST, name: str) -> Optional[ast.expr]:
+    """the expression a binding statement gives to the plain name (None: unpacking, loop target, augmented assignment, ...)"""
+    if isinstance(st, ast.Assign) and any(isinstance(t, ast.Name) and t.id == name for t in st.targets):
+        return st.value
+    if isinstance(st, ast.AnnAssign) and isinstance(st.target, ast.Name) and st.target.id == name:
+        return st.value
+    if isinstance(st, ast.Expr) and isinstance(st.value, ast.NamedExpr) and st.value.target.id == name:
+        return st.value.value
+    return None
+
+
+def _combine(classes: list[Optional[str]]) -> str:
+    cs = [c for c in classes if c is not None]
+    if any(c == "held" for c in cs):
+        return "held"
+    if cs and all(c == "new" for c in cs):
+        return "new"
+    return "unknown"
+
+
+class HeldListFlow:
+    """Follows the list an algebra node holds under one name (`node.<attr>`, `node["<attr>"]`, `node.get("<attr>")`,
+    `getattr(node, "<attr>")`) from an entry function into the functions it is handed to, and classifies every expression as
+
+        'held'    - may be that very list object (the read itself, a local or parameter it was bound to, a conditional of those,
+                    what a module function returns when it returns such a value)
+        'new'     - certainly a container created here (list()/sorted()/a slice/.copy()/a display/a comprehension/a + b ...)
+        'unknown' - neither is certain
+
+    `is_node_typed(module name, expr)` says whether the type checker knows expr to be an algebra node; a parameter that is
+    passed a node at a call the flow went through counts as a node too (the callee need not be annotated)."""
+
+    def __init__(self, repo, attr: str, is_node_typed, resolve):
+        self.repo, self.attr, self.is_node_typed, self.resolve = repo, attr, is_node_typed, resolve
+        # id(fn) -> [module, fn, names of node parameters, names of parameters that may be the held list]
+        self.fns: dict[int, list] = {}
+        self._cfgs: dict[int, object] = {}
+
+    # -- per function
+    def is_node(self, mod: Module, fn: ast.AST, e: ast.AST, depth: int = 0) -> bool:
+        if self.is_node_typed(mod.name, e):
+            return True
+        if isinstance(e, ast.NamedExpr):
+            return self.is_node(mod, fn, e.value, depth)
+        if isinstance(e, ast.Name) and depth < 4:
+            st = self.fns.get(id(fn))
+            if st is not None and e.id in st[2]:
+                return True
+            bs = bindings_of(fn, e.id)
+            return bool(bs) and all(k == "is" and self.is_node(mod, fn, v, depth + 1) for k, v in bs)
+        return False
+
+    def is_read(self, mod: Module, fn: ast.AST, e: ast.AST) -> bool:
+        """e reads the list from a node"""
+        a = self.attr
+        if isinstance(e, ast.Attribute) and e.attr == a and isinstance(e.ctx, ast.Load):
+            return self.is_node(mod, fn, e.value)
+        if isinstance(e, ast.Subscript) and isinstance(e.slice, ast.Constant) and e.slice.value == a and isinstance(e.ctx, ast.Load):
+            return self.is_node(mod, fn, e.value)
+        if isinstance(e, ast.Call) and isinstance(e.func, ast.Attribute) and e.func.attr in ("get", "__getitem__", "__getattr__") and e.args \
+                and isinstance(e.args[0], ast.Constant) and e.args[0].value == a:
+            return self.is_node(mod, fn, e.func.value)
+        if isinstance(e, ast.Call) and isinstance(e.func, ast.Name) and e.func.id == "getattr" and len(e.args) >= 2 \
+                and isinstance(e.args[1], ast.Constant) and e.args[1].value == a:
+            return self.is_node(mod, fn, e.args[0])
+        return False
+
+    def classify(self, mod: Module, fn: ast.AST, e: ast.AST, depth: int = 0, seen: frozenset = frozenset()) -> Optional[str]:
+        if depth > 8:
+            return "unknown"
+        if isinstance(e, ast.NamedExpr):
+            return self.classify(mod, fn, e.value, depth + 1, seen)
+        if self.is_read(mod, fn, e):
+            return "held"
+        if isinstance(e, ast.Name):
+            if e.id in seen or id(e) in seen:
+                return None  # a binding in terms of itself adds nothing
+            st = self.fns.get(id(fn))
+            held_param = st is not None and e.id in st[3]
+            at_entry = "held" if held_param else "unknown"
+            reaching = self._reaching(mod, fn, e)
+            if reaching is not None:
+                # the bindings that can be the last one before this use (a parameter that was re-bound to a copy is the copy)
+                cs: list[Optional[str]] = []
+                for b in reaching:
+                    if b is None:
+                        cs.append(at_entry)
+                    else:
+                        v = _bound_value(b, e.id)
+                        cs.append(self.classify(mod, fn, v, depth + 1, seen | {id(e)}) if v is not None else "unknown")
+                return _combine(cs)
+            bs = bindings_of(fn, e.id)
+            if not bs:
+                return at_entry
+            cs = [self.classify(mod, fn, v, depth + 1, seen | {e.id}) if k == "is" else "unknown" for k, v in bs]
+            if e.id in all_params(fn):
+                cs.append(at_entry)
+            return _combine(cs)
+        if isinstance(e, ast.IfExp):
+            return _combine([self.classify(mod, fn, e.body, depth + 1, seen), self.classify(mod, fn, e.orelse, depth + 1, seen)])
+        if isinstance(e, ast.BoolOp):
+            return _combine([self.classify(mod, fn, v, depth + 1, seen) for v in e.values])
+        if isinstance(e, (ast.List, ast.ListComp, ast.Tuple, ast.Set, ast.SetComp, ast.Dict, ast.DictComp, ast.GeneratorExp, ast.Constant, ast.JoinedStr)):
+            return "new"
+        if isinstance(e, ast.BinOp) and isinstance(e.op, (ast.Add, ast.Mult)):
+            return "new"
+        if isinstance(e, ast.Subscript) and isinstance(e.slice, ast.Slice):
+            return "new"
+        if isinstance(e, ast.Call):
+            tail = norm(e.func).split(".")[-1]
+            if isinstance(e.func, ast.Name) and not is_local(fn, e.func.id):
+                r = self.resolve(self.repo, mod, e.func.id)
+                if r is not None:
+                    return self._returned(r[0], r[1], mod, fn, e, depth, seen)
+                if e.func.id in _NEW_CONTAINER:
+                    return "new"
+                if e.func.id == "cast" and len(e.args) == 2:
+                    return self.classify(mod, fn, e.args[1], depth + 1, seen)
+            if isinstance(e.func, ast.Attribute) and tail in ("copy", "deepcopy"):
+                return "new"
+            if isinstance(e.func, ast.Attribute) and tail == "cast" and len(e.args) == 2:
+                return self.classify(mod, fn, e.args[1], depth + 1, seen)
+        return "unknown"
+
+    def _reaching(self, mod: Module, fn: ast.AST, use: ast.Name) -> Optional[list]:
+        """the binding statements of the name that can be the last one executed before `use` is evaluated (None in the list = the
+        value at function entry); None when that cannot be told from the control-flow graph of fn (the use lies in a nested
+        function / lambda / comprehension that binds the name, or is not a node of fn): the caller then takes all bindings"""
+        from .cfg import CFG, reaching_defs
+
+        inside = False
+        for p in mod.parents(use):
+            if p is fn:
+                inside = True
+                break
+            if isinstance(p, (ast.FunctionDef, ast.AsyncFunctionDef, ast.Lambda, ast.ClassDef)):
+                return None
+            if isinstance(p, (ast.ListComp, ast.SetComp, ast.DictComp, ast.GeneratorExp)) and any(
+                    use.id in {x.id for x in ast.walk(g.target) if isinstance(x, ast.Name)} for g in p.generators):
+                return None
+        if not inside:
+            return None
+        try:
+            g = self._cfgs.get(id(fn))
+            if g is None:
+                g = self._cfgs[id(fn)] = CFG(fn)
+            ids = reaching_defs(g, g.node_of(use, mod), use.id)
+            return [None if i == g.entry else g.nodes[i].ast for i in sorted(ids)]
+        except Exception:
+            return None
+
+    def bind_args(self, mod: Module, fn: ast.AST, call: ast.Call, g: ast.FunctionDef) -> tuple[set[str], set[str]]:
+        """(parameters of g that receive a node, parameters of g that may receive the held list) at this call"""
+        ps = params_of(g)
+        pairs: list[tuple[str, ast.expr]] = []
+        for i, a in enumerate(call.args):
+            if isinstance(a, ast.Starred):
+                break
+            if i < len(ps):
+                pairs.append((ps[i], a))
+        names = set(all_params(g))
+        for k in call.keywords:
+            if k.arg is not None and k.arg in names:
+                pairs.append((k.arg, k.value))
+        nodes = {p for p, a in pairs if self.is_node(mod, fn, a)}
+        held = {p for p, a in pairs if self.classify(mod, fn, a) == "held"}
+        return nodes, held
+
+    def _returned(self, gm: Module, g: ast.FunctionDef, mod: Module, fn: ast.AST, call: ast.Call, depth: int, seen: frozenset) -> str:
+        """what a call of the module function g gives back"""
+        if depth > 3 or g is fn:
+            return "unknown"
+        if any(isinstance(n, (ast.Yield, ast.YieldFrom)) for n in own_nodes(g)):
+            return "new"  # a generator object
+        nodes, held = self.bind_args(mod, fn, call, g)
+        if nodes or held:
+            self.enter(gm, g, nodes, held)
+        rets = [n.value for n in own_nodes(g) if isinstance(n, ast.Return) and n.value is not None]
+        if not rets:
+            return "new"
+        return _combine([self.classify(gm, g, r, depth + 1, frozenset()) for r in rets])
+
+    # -- across functions
+    def enter(self, mod: Module, fn: ast.FunctionDef, nodes: set[str], held: set[str]) -> bool:
+        st = self.fns.get(id(fn))
+        if st is None:
+            self.fns[id(fn)] = [mod, fn, set(nodes), set(held)]
+            return True
+        grown = not (nodes <= st[2] and held <= st[3])
+        st[2] |= nodes
+        st[3] |= held
+        return grown
+
+    def run(self, mod: Module, entry: ast.FunctionDef) -> None:
+        self.enter(mod, entry, set(), set())
+        dirty = {id(entry)}
+        rounds = 0
+        while dirty:
+            rounds += 1
+            if rounds > 2000:
+                raise AnalysisError("value flow of .%s from %s does not settle" % (self.attr, entry.name))
+            m, f, _n, _h = self.fns[dirty.pop()]
+            before = {k: (frozenset(v[2]), frozenset(v[3])) for k, v in self.fns.items()}
+            for c in own_nodes(f, include_nested=True):
+                if not isinstance(c, ast.Call):
+                    continue
+                for gm, g in callables_of(self.repo, m, f, c.func, self.resolve):
+                    nodes, held = self.bind_args(m, f, c, g)
+                    if nodes or held:
+                        self.enter(gm, g, nodes, held)
+            # entered for the first time (also by classify(), for the result of a call), or entered with more than before
+            for k, v in self.fns.items():
+                if k not in before or before[k] != (frozenset(v[2]), frozenset(v[3])):
+                    dirty.add(k)
+
+    def handles_list(self, fn: ast.AST) -> bool:
+        """the held list occurs in fn: it is read from a node there, or arrives in a parameter"""
+        st = self.fns.get(id(fn))
+        if st is None:
+            return False
+        return bool(st[3]) or any(self.is_read(st[0], fn, n) for n in own_nodes(fn, include_nested=True))
+
+    def computed_from_list(self, mod: Module, fn: ast.AST, e: ast.AST) -> bool:
+        """some expression the value of e is computed from is the held list"""
+        seen: set[str] = set()
+        todo: list[ast.AST] = [e]
+        while todo:
+            x = todo.pop()
+            for n in ast.walk(x):
+                if isinstance(n, ast.expr) and not isinstance(n, ast.Name) and self.is_read(mod, fn, n):
+                    return True
+                if isinstance(n, ast.Name) and isinstance(n.ctx, ast.Load) and n.id not in seen:
+                    seen.add(n.id)
+                    st = self.fns.get(id(fn))
+                    if st is not None and n.id in st[3]:
+                        return True
+                    todo += [v for _k, v in bindings_of(fn, n.id)]
+        return False
